@@ -57,7 +57,10 @@ def generate(rng, tier):
             # the source is a file a crashed producer left behind: cut at this fraction of its length (None: complete)
             'cut': rng.random() if rng.random() < 0.15 else None,
             # defragmenting in place: the destination path is the source path
-            'inplace': rng.random() < 0.04}
+            'inplace': rng.random() < 0.04,
+            # the destination's device is full from this write event on (ENOSPC; a quota, a file size limit): defragment
+            # may raise; if it returns normally the copy is complete
+            'disk_full_at': rng.randint(0, 25) if rng.random() < 0.1 else None}
 
 
 def content(tf):
@@ -149,9 +152,22 @@ def execute(case):
         if case['index']:
             res.probe('dst-index')
         before = len(st.fs.handles)
+        full_at = case.get('disk_full_at')
+        if full_at is not None and case['dst_kind'] != 'realpath':
+            st.fs.fail_writes = set(range(st.fs.write_events + full_at, st.fs.write_events + full_at + 10000))
         try:
-            lib.TdmsWriter.defragment(source, dest, version=case['version'], index_file=index)
+            try:
+                lib.TdmsWriter.defragment(source, dest, version=case['version'], index_file=index)
+            finally:
+                fired = st.fs.faults_fired.get('enospc', 0)
+                st.fs.fail_writes = None
+                if fired:
+                    res.fault('enospc', fired)
         except Exception as exc:
+            if fired and isinstance(exc, OSError):
+                # the device was full: an error is the right answer (what is left of the destination is not judged)
+                res.probe('disk-full:defragment-raised')
+                return res
             kinds = sorted(set((str(ch.type), ch.count == 0) for ch in w.chans.values())) if src['kind'] == 'stub' else []
             res.violations.append(V('C10.defragment-raises', '%s: %s (channel kinds %s)' % (type(exc).__name__, exc, kinds[:6]),
                                     exc=type(exc).__name__, typeless=any(k[0] == 'None' for k in kinds),
